@@ -82,6 +82,25 @@ def run(chk):
                 chk.violation("after add%r the %s mapping differs from the documented layout: %s, reference model: %s" %
                               (tuple(op), kind, core.canon(d["impl"][step])[:300], core.canon(d["model"][step])[:300]),
                               d["case"], "ops_manifests:" + kind)
+    # histories with a deletion (del manifest[variant]) between adds: what is filed afterwards is in the public mapping
+    from suites import docs_manifests as DMS
+    for kind in ["rpms", "modules", "extra"]:
+        hc = [c for c in DMS.generate(rng, kind, N[chk.tier]) if c.get("del_before")][:max(30, N[chk.tier] // 6)]
+
+        def oracle_del(c, r, kind=kind):
+            if r[0] != "ok":
+                return "a %s manifest built by adds, a deletion and more adds could not be written: %r" % (kind, r)
+            return None
+
+        _, _, dis = core.differential(chk, "docs_manifests:%s:del-history" % kind, hc, "roundtrip_" + kind,
+                                      model_cases=[[c["compose"], DMS.equivalent_ops(c)] for c in hc], impl_fn="impl_roundtrip",
+                                      nontrivial=lambda c, r: r[0] == "ok", oracle=oracle_del,
+                                      normalise=lambda r: r[:2] if (isinstance(r, list) and len(r) == 3) else r)
+        for d in dis[:3]:
+            if isinstance(d["impl"], list) and d["impl"] and d["impl"][0] == "ok" and d["model"] and d["model"][0] == "ok":
+                chk.violation("after add calls, del manifest[%r] and more add calls the %s manifest is not what the calls say: %s, reference model: %s" %
+                              (d["case"]["del_before"][1], kind, core.canon(d["impl"][1][0])[:300], core.canon(d["model"][1][0])[:300]),
+                              d["case"], "docs_manifests:%s:del-history" % kind)
     # every documented architecture (frozen copy of the shipped table; src/nosrc are refused as tree architectures) is accepted by
     # each builder, whatever the live table has become
     from suites.common import DOC_RPM_ARCHES
